@@ -77,7 +77,14 @@ def _label(r, n=None):
 def _hostname(r):
     x = r.random()
     if x < 0.08:
-        return "xn--" + _label(r, 6) + "." + _label(r, 3)
+        # a genuine A-label (punycode of a lower-case non-ASCII word)
+        # (the last two exist only under IDNA2008: sharp s / final sigma are PVALID there, mapped away by IDNA2003)
+        word = r.choice(["münchen", "пример", "bücher", "例え", "ñandú", "münchen", "пример", "straße", "βόλος"])
+        if word not in ("straße", "βόλος"):
+            word += _label(r, r.choice([1, 2, 4])).replace("-", "a")
+        return "xn--" + word.encode("punycode").decode("ascii") + "." + r.choice(["test", "example", "de", _label(r, 3).replace("-", "b")])
+    if x < 0.1:
+        return "xn--" + _label(r, 6) + "." + _label(r, 3)       # fake A-label: no equality asserted
     labels = [_label(r) for _ in range(r.choice([1, 2, 2, 3, 3, 4]))]
     h = ".".join(labels)
     if r.random() < 0.1:
@@ -328,6 +335,19 @@ def compare(obs, ref: CH.Hello):
     return bad
 
 
+def sni_kind(bad, ref):
+    """Violation-key detail for SNI mismatches: what sort of conformant name was mis-reported."""
+    if "sni" not in bad or ref.sni_state != "conformant":
+        return {}
+    kind = "ldh"
+    for l in ref.sni.split("."):
+        if l[:4].lower() == "xn--":
+            u = l[4:].encode("ascii").decode("punycode")
+            # characters that IDNA2008 (RFC 5891/5892) allows but the IDNA2003 mapping folds away
+            kind = "a_label_idna2008_only" if any(ch in u for ch in "ßς‌‍") else "a_label"
+    return {"sni_kind": kind}
+
+
 def direct(fn, data, viol_cb, what):
     """Call a parse function of the code under test; classify the outcome."""
     try:
@@ -390,6 +410,7 @@ def _execute(sc):
     results = []   # per connection dict
     hook_seen: dict[int, list] = {}
     ended: dict[int, list] = {}
+    disconnected: set = set()
 
     async def body_fn(w):
         def on_hook(t, name, data):
@@ -402,6 +423,8 @@ def _execute(sc):
                 hook_seen.setdefault(port, []).append(o)
             elif name in ("tls_failed_client", "tls_established_client"):
                 ended.setdefault(data.conn.peername[1], []).append(name)
+            elif name == "client_disconnected":
+                disconnected.add(data.peername[1])
         w.hook_listeners.append(on_hook)
         def planner(host, port, n, proto):
             def accept(conn):
@@ -492,7 +515,7 @@ def _execute(sc):
         for l in w.log:
             print("  log", round(l[0], 6), l[1], l[2][:300])
         print("hooks", hooks)
-    cv = T.crash_violation(w, {"family": fam})
+    cv = T.crash_violation(w)
     if cv:
         viol.append(cv)
 
@@ -528,14 +551,14 @@ def _execute(sc):
                 probe("nonconformant_sni")
             if obs is None:
                 if res["strict"] and not res.get("tiny"):
-                    violate("wellformed_hello_not_reported", dict(key_base, ended=",".join(end) or "none"),
+                    violate("wellformed_hello_not_reported", dict(via="hook", ended=",".join(end) or "none"),
                             f"conn {res['i']}: {len(wire)} wire bytes hold a complete well-formed ClientHello "
                             f"(sni={ref.sni!r}/{ref.sni_state}, {len(ref.extensions)} extensions) over {res.get('nrec')} records / "
                             f"{res['nseg']} segments but tls_clienthello never fired; ended={end}")
             else:
                 bad = compare(obs, ref)
                 if bad:
-                    violate("hello_field_mismatch", dict(key_base, fields=",".join(bad)),
+                    violate("hello_field_mismatch", dict(via="hook", fields=",".join(bad), **sni_kind(bad, ref)),
                             f"conn {res['i']}: hook reports sni={obs['sni']!r} alpn={obs['alpn'][:4]} "
                             f"{len(obs['ciphers'])} ciphers {len(obs['extensions'])} extensions; independent parse: "
                             f"sni={ref.sni!r} ({ref.sni_state}) alpn={ref.alpn[:4]} {len(ref.ciphers)} ciphers "
@@ -557,9 +580,10 @@ def _execute(sc):
                 violate("handshake_path_not_taken", dict(key_base, ended=",".join(end) or "none", state=state),
                         f"conn {res['i']}: expected exactly one of tls_established_client/tls_failed_client, got {end}; "
                         f"reference state {state}, hook fired={obs is not None}")
-            if not res["closed"]:
-                left_open = any(n == "client_disconnected" for n in hooks)
-                violate("connection_not_closed", dict(key_base, state=state, socket_left_open_after_disconnected_hook=left_open),
+            if not res["closed"] and not res["completed"]:
+                # (how a connection whose handshake succeeded is torn down is not this property's business)
+                left_open = res["port"] in disconnected
+                violate("connection_not_closed", {"socket_left_open_after_disconnected_hook": left_open},
                         f"conn {res['i']}: client sent FIN after its flight but the proxy did not close within 10 s "
                         f"(handler done={res['handler_done']})")
         if res["strict"]:
@@ -593,19 +617,23 @@ def _execute(sc):
                 direct(get, data, violate, gname)
             if not strict or full_state != "complete_wellformed" or kind == "exception":
                 continue
+            if dtls and L != len(wire):
+                continue          # a datagram is never segmented: truncated datagrams are checked for totality only
             st, ref = (full_state, full_ref) if L == len(wire) else CH.reference(data, dtls)
+            extra = {"record_version": wire[1:3].hex()} if dtls else {}
             if st == "incomplete" and kind != "none":
                 violate("prefix_not_incomplete", {"fn": pname, "got": kind},
                         f"{tag}: {pname} on the first {L} of {len(wire)} bytes of a valid flight gave {kind}, not None")
                 break
             if st == "complete_wellformed":
                 if kind != "hello":
-                    violate("wellformed_hello_not_reported", {"fn": pname, "got": kind, "family": fam},
-                            f"{tag}: {pname} gave {kind} for a complete well-formed hello ({L} bytes)")
+                    violate("wellformed_hello_not_reported", dict({"via": pname, "got": kind}, **extra),
+                            f"{tag}: {pname} gave {kind} for a complete well-formed hello ({L} bytes, starts {wire[:13].hex()})")
                     break
                 bad = compare(obs, ref)
                 if bad:
-                    violate("hello_field_mismatch", {"fn": pname, "fields": ",".join(bad), "family": fam},
+                    violate("hello_field_mismatch",
+                            dict({"via": pname, "fields": ",".join(bad)}, **sni_kind(bad, ref)),
                             f"{tag}: {pname} reports sni={obs['sni']!r} alpn={obs['alpn'][:4]}; independent parse "
                             f"sni={ref.sni!r} ({ref.sni_state}) alpn={ref.alpn[:4]}")
                     break
@@ -623,6 +651,23 @@ def _execute(sc):
             spec = hello
         else:
             spec = None
+            # a real DTLS ClientHello from an OpenSSL client (pyOpenSSL, version-flexible DTLS method)
+            from OpenSSL import SSL
+            dctx = SSL.Context(SSL.DTLS_CLIENT_METHOD)
+            if hello["alpn"]:
+                dctx.set_alpn_protos([a.encode("latin-1") for a in hello["alpn"]])
+            dconn = SSL.Connection(dctx)
+            dconn.set_connect_state()
+            if hello["sni"] and not hello["sni"][0].isdigit():
+                dconn.set_tlsext_host_name(hello["sni"].encode("ascii"))
+            try:
+                dconn.do_handshake()
+            except SSL.WantReadError:
+                pass
+            dwire = dconn.bio_read(65535)
+            dwire2 = bytearray(dwire)
+            st, seq = direct_series(bytes(dwire2), True, True, "dtls-real")
+            log.append(("direct-dtls-real", st, seq))
         if spec is not None:
             dbody, dfields = CH.build_body(spec, dtls=True)
             dhs = apply_hs_ops(CH.handshake_message(dbody, dtls=True), dfields, sc["hs_ops"] + sc.get("dtls_ops", []), dtls=True)
